@@ -36,6 +36,7 @@ class Harness:
     def interp(self, strand="+", exons=None):
         it = Interp(self.ctx)
         H = self
+        self.real_merge = getattr(self, "real_merge", False)
 
         def fr(i, pos, kw, node):
             o = Opaque("new", "Feature")
@@ -58,7 +59,8 @@ class Harness:
                 return [feat("T", "chr1", 1, 100, strand=strand, ft="mRNA")]
             return list(exons) if exons is not None else [feat("E1", "chr1", 10, 20, strand=strand), feat("E2", "chr1", 30, 40, strand=strand)]
         it.summaries["interface.FeatureDB._feature_returner"] = fr
-        it.summaries["helpers.merge_attributes"] = ma
+        if not self.real_merge:
+            it.summaries["helpers.merge_attributes"] = ma
         it.summaries["interface.FeatureDB.features_of_type"] = lambda i, pos, kw, node: [feat("G", "chr1", 1, 100, ft="gene")]
         it.summaries["interface.FeatureDB.children"] = ch
         return it
@@ -176,6 +178,19 @@ def check(ctx):
     okj = isinstance(got, dict) and list(got.get("x", [])) == [v2] and len(got.get("ID", [])) == 1 and _render(got["ID"][0]) == "v1-v3"
     ctx.ob("R5", okj, "the gap carries the united attributes; several ID values are joined by '-' into one", func=f,
            sig="gap attributes %s" % ({k: [_render(x) for x in v] for k, v in got.items()} if isinstance(got, dict) else got))
+    # ...end to end with the package's own merge_attributes, on concrete values: per key the sorted duplicate-free union,
+    # also for keys only one neighbour has
+    H.real_merge = True
+    A2 = feat("A", "chr1", 10, 20, attrs={"ID": ["e1"], "Dbxref": ["UniProt:P1", "EMBL:X2", "UniProt:P1"], "n": ["9"]})
+    B2 = feat("B", "chr1", 30, 40, attrs={"ID": ["e2"], "n": ["10"], "tag": ["z", "a"]})
+    for numeric in (False, True):
+        ys, t = H.run(f, {fp: [A2, B2], "merge_attributes": True, "numeric_sort": numeric})
+        got = ys[0].attrs.get("attributes") if ys and isinstance(ys[0], Opaque) else None
+        want = {"ID": ["e1-e2"], "Dbxref": ["EMBL:X2", "UniProt:P1"], "n": ["9", "10"] if numeric else ["10", "9"], "tag": ["a", "z"]}
+        shown = {k: [_render(x) for x in v] for k, v in got.items()} if isinstance(got, dict) else got
+        ctx.ob("R5", shown == want, "the gap's attributes are the per-key sorted duplicate-free union of both neighbours' values (numeric_sort=%s), keys of one neighbour only included" % numeric, func=f,
+               sig="united attributes as specified (numeric_sort=%s)" % numeric if shown == want else "numeric_sort=%s: gap attributes %s" % (numeric, shown))
+    H.real_merge = False
     H.merge_calls = []
     ys, t = H.run(f, {fp: [A, B], "merge_attributes": False})
     got = ys[0].attrs.get("attributes") if ys and isinstance(ys[0], Opaque) else None
